@@ -328,6 +328,17 @@ pub fn run(tier: Tier) -> i32 {
     for s in SEEDS {
         texts.push((s.to_string(), json!({"driver":"seed"})));
     }
+    // inline pipelines joined / appended *inside* the pipeline of a group or window: the pipeline is pulled out into
+    // a table of its own, nothing of the enclosing partition / frame / sort may be carried into it
+    for outer in ["group {a} (§)", "group {b} (sort a | §)", "window rolling:2 (§)", "sort b | group {a} (window rows:-1..0 (§))"] {
+        for inner in ["from u | take 2", "from u | sort d | take 1", "from u | group a (aggregate {d = max d})", "from u | aggregate {a = min a, d = max d}", "from u | select {a, d} | derive {r = rank d}", "from u | select {a, d}"] {
+            for op in ["join r=(¤) (b == r.d)", "join side:left r=(¤) (a == r.a)", "join (¤) (b == d)"] {
+                let body = op.replace('¤', inner);
+                texts.push((format!("from t | select {{a, b}} | {}", outer.replace('§', &body)), json!({"driver":"inline-pipeline-inside-group"})));
+                texts.push((format!("from t | select {{a, b}} | {} | select {{a, b}}", outer.replace('§', &format!("{body} | derive {{n = count this}}"))), json!({"driver":"inline-pipeline-inside-group"})));
+            }
+        }
+    }
     // the window programs of C04 (partitions, sorts — also by computed keys —, frames, placements)
     for s in crate::c04::program_texts(tier) {
         texts.push((s, json!({"driver":"AP-window"})));
